@@ -334,7 +334,7 @@ def c14_aged_gen(rng, tier):
         add(tr, rng.choice([3800, 4200]), tick=rng.choice([500, 700]))
     if tier == "thorough":
         for tr in AGED_TR:
-            for age in (1000, 2900, 3100, 4800, 5300, 5900, 6100, 8500):
+            for age in (1000, 2900, 3100, 4800, 5300, 5900, 6100, 8000):
                 add(tr, age, n=3)
             add(tr, 8000, tick=900)
     return out
@@ -358,7 +358,9 @@ def c14_aged_oracle(line, res):
 def c14_aged_compare(ir, mr):
     a, b = _res(ir), _res(mr)
     allr = a.get("res", "") != "" and set(a.get("res", "")) <= set("R")
-    return (("ALLR" if allr else "FAIL") == b.get("res")) and a.get("acc") == b.get("acc")
+    # acc (connections the server saw) is reported, not compared: an extra connection does not concern the property and
+    # the count is exposed to timing (idle timers under load) and to other processes connecting to a loopback port
+    return ("ALLR" if allr else "FAIL") == b.get("res")
 
 
 def c14_aged_classify(line, res):
